@@ -203,6 +203,11 @@ MUTANTS = {
         ('sidx-parse-order', 'dashlive/mpeg/mp4.py', "        r.read(sz, 'earliest_presentation_time')\n        r.read(sz, 'first_offset')", "        r.read(sz, 'first_offset')\n        r.read(sz, 'earliest_presentation_time')"),
         ('sidx-count', 'dashlive/mpeg/mp4.py', "        w.write('H', 'reference_count', len(self.references))", "        w.write('H', 'reference_count', len(self.references) + 1)"),
         ('sidx-v1-offset-32', 'dashlive/mpeg/mp4.py', "        w.write(sz, 'earliest_presentation_time')\n        w.write(sz, 'first_offset')\n        w.write('H', 'reserved', 0)", "        w.write(sz, 'earliest_presentation_time')\n        w.write('I', 'first_offset')\n        w.write('H', 'reserved', 0)"),
+        ('smp-order', 'dashlive/mpeg/mp4.py', "        if flags & TrackFragmentRunBox.sample_duration_present:\n            d.write('I', 'duration')\n        if flags & TrackFragmentRunBox.sample_size_present:\n            d.write('I', 'size')", "        if flags & TrackFragmentRunBox.sample_size_present:\n            d.write('I', 'size')\n        if flags & TrackFragmentRunBox.sample_duration_present:\n            d.write('I', 'duration')"),
+        ('smp-cto-unsigned', 'dashlive/mpeg/mp4.py', "            if self.parent.version:\n                d.write('i', 'composition_time_offset')", "            if not self.parent.version:\n                d.write('i', 'composition_time_offset')"),
+        ('smp-first-flags-index', 'dashlive/mpeg/mp4.py', "        if index == 0 and (flags & TrackFragmentRunBox.first_sample_flags_present):", "        if index == 1 and (flags & TrackFragmentRunBox.first_sample_flags_present):"),
+        ('smp-offset-duration', 'dashlive/mpeg/mp4.py', "            rv[\"samples\"].append(ts)\n            offset += ts.size", "            rv[\"samples\"].append(ts)\n            offset += ts.duration or 0"),
+        ('smp-default-size', 'dashlive/mpeg/mp4.py', "            rv['size'] = tfhd.default_sample_size", "            rv['size'] = tfhd.default_sample_duration"),
         ('mfhd-h', 'dashlive/mpeg/mp4.py', "        w.write('I', 'sequence_number')", "        w.write('H', 'sequence_number')"),
         ('mehd-swap', 'dashlive/mpeg/mp4.py', "        if self.version == 1:\n            w.write('Q', 'fragment_duration')\n        else:\n            w.write('I', 'fragment_duration')", "        if self.version == 0:\n            w.write('Q', 'fragment_duration')\n        else:\n            w.write('I', 'fragment_duration')"),
         ('trex-order', 'dashlive/mpeg/mp4.py', "        w.write('I', 'default_sample_duration')\n        w.write('I', 'default_sample_size')\n        w.write('I', 'default_sample_flags')\n\n", "        w.write('I', 'default_sample_size')\n        w.write('I', 'default_sample_duration')\n        w.write('I', 'default_sample_flags')\n\n"),
